@@ -725,3 +725,47 @@ mut('c16-get-next-no-running-check', 'C16', ['C16.4'], S,
     "        if not self._is_running:\n            return None\n\n        try:\n            # Create a task for queue.get() so we can cancel it cleanly",
     "        try:\n            # Create a task for queue.get() so we can cancel it cleanly",
     'polling does not check _is_running first')
+
+# ================================================================================================ C17
+mut('c17-wal-before-handlers', 'C17', ['C17.1'], S,
+    "        # Execute handlers\n        await self._execute_handlers(event, handlers=applicable_handlers, timeout=timeout)\n\n        await self._default_log_handler(event)\n        await self._default_wal_handler(event)\n",
+    "        await self._default_wal_handler(event)\n        # Execute handlers\n        await self._execute_handlers(event, handlers=applicable_handlers, timeout=timeout)\n\n        await self._default_log_handler(event)\n",
+    'WAL line written before the handlers ran')
+mut('c17-wal-twice', 'C17', ['C17.1'], S,
+    "        await self._default_wal_handler(event)\n\n        # Mark event as complete if all handlers are done\n        event.event_mark_complete_if_all_handlers_completed()\n",
+    "        await self._default_wal_handler(event)\n\n        # Mark event as complete if all handlers are done\n        event.event_mark_complete_if_all_handlers_completed()\n        if event.event_parent_id:\n            await self._default_wal_handler(event)\n",
+    'child events logged twice')
+mut('c17-wal-conditional', 'C17', ['C17.1'], S,
+    "        await self._default_wal_handler(event)\n\n        # Mark event as complete",
+    "        if applicable_handlers:\n            await self._default_wal_handler(event)\n\n        # Mark event as complete",
+    'events without handlers are not logged')
+mut('c17-mode-w', 'C17', ['C17.2'], S,
+    "anyio.open_file(self.wal_path, 'a', encoding='utf-8')", "anyio.open_file(self.wal_path, 'w', encoding='utf-8')",
+    'WAL truncated on every event')
+mut('c17-no-newline', 'C17', ['C17.2'], S,
+    "                await f.write(event_json + '\\n')", "                await f.write(event_json)",
+    'lines run together')
+mut('c17-indent', 'C17', ['C17.2'], S,
+    "            event_json = event.model_dump_json()  # pyright", "            event_json = event.model_dump_json(indent=2)  # pyright",
+    'multi-line JSON')
+mut('c17-dump-subset', 'C17', ['C17.2'], S,
+    "            event_json = event.model_dump_json()  # pyright", "            event_json = event.model_dump_json(exclude={'event_path'})  # pyright",
+    'path omitted from the WAL line')
+mut('c17-reraise', 'C17', ['C17.3'], S,
+    "            logger.error(f'❌ {self} Failed to save event {event.event_id} to WAL file: {type(e).__name__} {e}\\n{event}')\n",
+    "            logger.error(f'❌ {self} Failed to save event {event.event_id} to WAL file: {type(e).__name__} {e}\\n{event}')\n            raise\n",
+    'WAL failure propagates')
+mut('c17-dump-outside-try', 'C17', ['C17.3'], S,
+    "        try:\n            event_json = event.model_dump_json()  # pyright: ignore[reportUnknownMemberType]\n",
+    "        event_json = event.model_dump_json()  # pyright: ignore[reportUnknownMemberType]\n        try:\n",
+    'serialisation errors escape the WAL handler')
+mut('c17-narrow-except', 'C17', ['C17.3'], S,
+    "        except Exception as e:\n            logger.error(f'❌ {self} Failed to save event", "        except OSError as e:\n            logger.error(f'❌ {self} Failed to save event",
+    'only OSError contained')
+mut('c17-exclude-parent', 'C17', ['C17.4'], M,
+    "        default=None, description='ID of the parent event that triggered this event', max_length=36\n",
+    "        default=None, description='ID of the parent event that triggered this event', max_length=36, exclude=True\n",
+    'parent id excluded from dumps')
+mut('c17-extra-forbid', 'C17', ['C17.4'], M,
+    "    model_config = ConfigDict(\n        extra='allow',", "    model_config = ConfigDict(\n        extra='ignore',",
+    'payload fields dropped on validation')
